@@ -9,7 +9,7 @@ use std::sync::Arc;
 use swimos::agent::{
     agent_lifecycle::HandlerContext,
     event_handler::{EventHandler, HandlerActionExt, Sequentially},
-    lanes::{CommandLane, ValueLane},
+    lanes::{CommandLane, MapLane, ValueLane},
     lifecycle, projections,
     stores::ValueStore,
     AgentLaneModel,
@@ -26,6 +26,8 @@ pub struct PairAgent {
     /// a lane whose value can have the empty encoding (`None`); it starts at `Some(7)` so that
     /// "nothing stored" and "the empty value stored" are different states
     o: ValueLane<Option<i32>>,
+    /// a map lane whose values can have the empty encoding
+    om: MapLane<i32, Option<i32>>,
 }
 
 /// Ordinal of the field `o` (its item id in the derived model).
@@ -46,10 +48,15 @@ impl PairLifecycle {
             .and_then(move |v| context.get_value(PairAgent::W).map(move |w| (v, w)))
             .and_then(move |(v, w)| context.get_value(PairAgent::VS).map(move |vs| (v, w, vs)))
             .and_then(move |(v, w, vs)| context.get_value(PairAgent::O).map(move |o| (v, w, vs, o)))
-            .and_then(move |(v, w, vs, o): (i32, i32, i32, Option<i32>)| {
+            .and_then(move |(v, w, vs, o)| context.get_map(PairAgent::OM).map(move |om| (v, w, vs, o, om)))
+            .and_then(move |(v, w, vs, o, om): (i32, i32, i32, Option<i32>, std::collections::HashMap<i32, Option<i32>>)| {
                 context.effect(move || {
                     log.push(Truth::Start { v, w, t: 0, vs, m: vec![], ms: vec![] });
                     log.push(Truth::Custom(format!("start:o={}", o.map(|x| x.to_string()).unwrap_or_default())));
+                    let mut es: Vec<(i32, Option<i32>)> = om.into_iter().collect();
+                    es.sort();
+                    let es: Vec<String> = es.iter().map(|(k, v)| format!("{}:{}", k, v.map(|x| x.to_string()).unwrap_or_default())).collect();
+                    log.push(Truth::Custom(format!("start:om={}", es.join(","))));
                 })
             })
     }
@@ -98,6 +105,9 @@ impl PairLifecycle {
                 Simple::SetWs(x) => Box::new(context.set_value(PairAgent::WS, x)),
                 Simple::SetO(x) => Box::new(context.set_value(PairAgent::O, Some(x))),
                 Simple::ClrO => Box::new(context.set_value(PairAgent::O, None)),
+                Simple::UpdOm { k, v } => Box::new(context.update(PairAgent::OM, k, Some(v))),
+                Simple::NilOm(k) => Box::new(context.update(PairAgent::OM, k, None)),
+                Simple::RemOm(k) => Box::new(context.remove(PairAgent::OM, k)),
                 _ => Box::new(context.effect(|| ())),
             };
             handlers.push(h);
